@@ -45,7 +45,8 @@ RULE = ("fixed families (never queried / queried without domain / with explicit 
         "instances / mid-body drops / temporaries created and discarded back to back / Role[Emp] instances whose "
         "head_of infers through the role taker, query-free) x 4-5 iterations + random loop bodies of 2-9 operations "
         "(drops without a sweep, churn) + random query-free role bodies + long-lived roots holding transients that are "
-        "reached by queries over the root type through flatten(root.knows); non-trivial = the body "
+        "reached by queries over the root type through flatten(root.knows) + evaluations that are requested at one point "
+        "and consumed at a later one, with the number of dead wrappers probed after the consumption; non-trivial = the body "
         "creates an instance and relates or queries it; distinct by case text")
 
 
@@ -108,6 +109,14 @@ def _families():
         # related temporaries discarded back to back (dead, unswept, their ids recycled), the last one kept
         out.append(([["new", 0, 1], ["relchurn", 10, 5, 1, 3, 0], ["new", 20, 1], ["set", 3, 20, 0]], "relchurn"))
         out.append(([["new", 0, 2], ["relchurn", 10, 5, 3, 4, 0], ["new", 20, 3], ["rel", 4, 20, 0]], "relchurn"))
+        # evaluate() called, instances dropped, THEN the results consumed: the evaluation sweeps when it starts to run,
+        # so after the consumption the registry holds no wrapper of a dead instance (dead=0)
+        for c in (1, 2, 7, 9):
+            out.append(([["new", 0, c], ["new", 1, c], ["qstart", 1, c], ["drop", 0], ["qdrain", 1]], "deferred"))
+            out.append(([["new", 0, c], ["new", 1, c], ["new", 2, c], ["qstart", 1, 0], ["drop", 0], ["drop", 2], ["churn", 10, 3, c],
+                         ["qdrain", 1], ["drop", 1], ["query", c]], "deferred"))
+            out.append(([["new", 0, c], ["qstart", 1, c], ["qstart", 2, 0], ["drop", 0], ["qdrain", 2], ["new", 1, c],
+                         ["qdrain", 1]], "deferred"))
         yield from ((n, ops, tag) for ops, tag in out)
         out = []
 
@@ -122,6 +131,12 @@ def generate(rng, tier, n):
         ops += g.history(rng.randint(1, 7), w_new=1.0, w_drop=0.7, w_rel=2.5, w_sweep=0.3, w_clear=0.0, w_query=2.0)
         if rng.random() < 0.35:
             ops.insert(rng.randint(0, len(ops)), g.churn())
+        if rng.random() < 0.35:
+            # evaluate() is called at one point and consumed at a later one
+            a = rng.randint(0, len(ops))
+            b = rng.randint(a, len(ops))
+            ops.insert(b, ["qdrain", 77])
+            ops.insert(a, ["qstart", 77, rng.choice([0, 1, 2, 2, 4])])
         # A dead, unswept instance met by the transitive inference raises (finding F-C14-2, C14's subject). Loop
         # bodies keep the window between a death and the next sweep open (ids and node indices are recycled in it)
         # and stay clear of F-C14-2 by construction: no transitive assertion while a dropped instance may be unswept.
@@ -129,7 +144,7 @@ def generate(rng, tier, n):
         for op in ops:
             if op[0] == "drop":
                 dirty = True
-            elif op[0] == "sweep" or op[0] in ("query", "queryd", "evalq"):
+            elif op[0] == "sweep" or op[0] in ("query", "queryd", "evalq", "qdrain"):
                 dirty = False
             elif op[0] == "set" and int(op[1]) == 3 and dirty:
                 continue
@@ -142,6 +157,8 @@ def generate(rng, tier, n):
             tags.append("with-relation")
         if any(op[0] == "churn" for op in ops):
             tags.append("churn")
+        if any(op[0] == "qstart" for op in ops):
+            tags.append("deferred")
         cases.append(_case(rng.choice([4, 5]), ops, tags, "random"))
     # long-lived roots, transients reached through flatten(root.knows) by queries over the root type
     for _ in range(n // 5):
